@@ -171,7 +171,60 @@ def sevenz_variants():
     content_aes = sevenz(bytes(range(16)), b"\x01\x04" + _streams(16, [(AES7, props)], [11]) + b"\x00" + _files("a.txt") + b"\x00")
     chain_aes = sevenz(bytes(range(16)), b"\x01\x04" + _streams(16, [(b"\x21", b"\x18"), (AES7, props)], [11, 16]) + b"\x00" + _files("a.txt") + b"\x00")
     header_aes = sevenz(bytes(range(16)), b"\x17" + _streams(16, [(AES7, props)], [16]) + b"\x00")
-    return {"plain": plain, "content-aes": content_aes, "lzma2+aes": chain_aes, "header-aes": header_aes}
+    header_aes_copy = sevenz(bytes(range(16)), b"\x17" + _streams(16, [(AES7, props), (b"\x00", None)], [16, 16]) + b"\x00")
+    header_copy_aes = sevenz(bytes(range(16)), b"\x17" + _streams(16, [(b"\x00", None), (AES7, props)], [16, 16]) + b"\x00")
+    return {"plain": plain, "content-aes": content_aes, "lzma2+aes": chain_aes, "header-aes": header_aes,
+            "header-aes+copy": header_aes_copy, "header-copy+aes": header_copy_aes}
+
+
+def sevenz_two_folders(second_coders):
+    """Two folders / two files: the first folder is plain (copy), the second has the given coder chain."""
+    props = b"\x13\x00\x00"
+    coders2 = [(c, props if c == AES7 else None) for c in second_coders]
+    packed = b"hello world" + bytes(range(16))
+    streams = (b"\x06\x00\x02\x09" + bytes([11, 16]) + b"\x00" + b"\x07\x0b\x02\x00" + _folder([(b"\x00", None)]) + _folder(coders2)
+               + b"\x0c" + bytes([11] + [16] * len(coders2)) + b"\x00")
+    names = b"\x00" + "a.txt".encode("utf-16-le") + b"\x00\x00" + "b.txt".encode("utf-16-le") + b"\x00\x00"
+    files = b"\x05\x02\x11" + bytes([len(names)]) + names + b"\x00"
+    return sevenz(packed, b"\x01\x04" + streams + b"\x00" + files + b"\x00")
+
+
+def big_manifest(s, encrypted):
+    """Manifest larger than 64 KiB (many picture entries), the encryption-data element placed after them."""
+    filler = "".join(f'<manifest:file-entry manifest:full-path="Pictures/p{i:05d}.png" manifest:media-type="image/png"/>' for i in range(900))
+    s = s.replace("</manifest:manifest>", filler + "</manifest:manifest>")
+    if encrypted:
+        s = s.replace("</manifest:manifest>", '<manifest:file-entry manifest:full-path="late.xml" manifest:media-type="text/xml">' + ENC_DATA + "</manifest:file-entry></manifest:manifest>")
+    return s
+
+
+def doc_fib_variants():
+    """Copies of a plain .doc fixture with the FIB patched in place: wIdent (0xA5EC Word 97 / 0xA5DC Word 6/95) and
+    fEncrypted (bit 0x0100 of the word at 0x0A).  -> [(label, bytes, expected verdict)]"""
+    import olefile
+    for p in sorted(glob.glob(os.path.join(RES, "**/*.doc"), recursive=True)):
+        if "password" in p:
+            continue
+        raw = open(p, "rb").read()
+        if not olefile.isOleFile(io.BytesIO(raw)):
+            continue
+        with olefile.OleFileIO(io.BytesIO(raw)) as ole:
+            if not ole.exists("WordDocument"):
+                continue
+            head = ole.openstream("WordDocument").read()[:64]
+        at = raw.find(head)
+        if at < 0 or raw.find(head, at + 1) >= 0 or head[:2] != b"\xec\xa5":
+            continue
+        out = []
+        for ident, iname in ((0xA5EC, "Word97"), (0xA5DC, "Word6/95")):
+            for flag in (False, True):
+                b = bytearray(raw)
+                struct.pack_into("<H", b, at, ident)
+                fl = struct.unpack_from("<H", b, at + 0x0A)[0]
+                struct.pack_into("<H", b, at + 0x0A, (fl | 0x0100) if flag else (fl & ~0x0100))
+                out.append((f"{os.path.basename(p)}: wIdent={iname}, fEncrypted={int(flag)}", bytes(b), "encrypted" if flag else "not-encrypted"))
+        return out
+    return []
 
 
 def enc_xml(algos):
@@ -346,14 +399,51 @@ def sweep():
             res = run(extractor_for(ext), data, ext)
             if res[0] != want or (want == "encrypted" and res[1] != 0):
                 return fail("extractor:" + ext, {"fixture": fx, "manifest_has_encryption_data": want == "encrypted"}, want, str(res))
+        if ext in ("a.odt", "a.ods"):      # manifests larger than 64 KiB (documents with many pictures)
+            for encrypted in (False, True):
+                data = rebuild_zip(src, manifest_edit(lambda m, e=encrypted: big_manifest(m, e)))
+                res = run(extractor_for(ext), data, ext)
+                want = "encrypted" if encrypted else "ok"
+                if manifest_has_encryption_element(data) != encrypted or res[0] != want or (encrypted and res[1] != 0):
+                    return fail("extractor:" + ext, {"fixture": fx, "manifest_bytes": "> 64 KiB (900 extra picture entries)", "encryption_data_element": encrypted}, want, str(res))
+    # 5b. DOC: FIB patched in place (wIdent Word 97 / Word 6-95, fEncrypted bit)
+    from sharepoint2text.parsing.extractors.ms_legacy.doc_extractor import read_doc
+    for label, data, want in doc_fib_variants():
+        res = run(read_doc, data, "a.doc")
+        if (want == "encrypted") != (res[0] == "encrypted") or (want == "encrypted" and res[1] != 0):
+            return fail("read_doc", {"doc": label}, want, str(res))
     # 6. 7z coder chains
+    res = run(read_archive, sevenz_two_folders([b"\x00"]), "x.7z")
+    if res[0] != "ok":
+        return fail("read_archive(7z)", {"folders": "two plain (copy) folders"}, "ok", str(res))
+    if not doc_fib_variants():
+        return fail("builder", {"doc": "no patchable .doc fixture"}, "4 FIB variants", "none")
+    for label, coders in (("second folder AES", [AES7]), ("second folder LZMA2+AES", [b"\x21", AES7])):
+        res = run(read_archive, sevenz_two_folders(coders), "x.7z")
+        if res[0] != "encrypted" or res[1] != 0:
+            return fail("read_archive(7z)", {"folders": "first plain (copy), " + label}, "encrypted, 0 results", str(res))
     for name, data in sevenz_variants().items():
-        if name == "header-aes":
-            continue        # recorded finding F26
         res = run(read_archive, data, "x.7z")
         want = "ok" if name == "plain" else "encrypted"
         if res[0] != want or (want == "encrypted" and res[1] != 0):
             return fail("read_archive(7z)", {"variant": name}, want, str(res))
+    # 6b. e-mail attachments (entry point): a protected attachment surfaces as the file-encrypted error, not skipped
+    from sharepoint2text.parsing.extractors.data_types import EmailAddress, EmailAttachment, EmailContent
+    for p in prot:
+        name = os.path.basename(p)
+        mail = EmailContent(from_email=EmailAddress(address="a@b.c"), attachments=[
+            EmailAttachment(filename=name, mime_type="application/octet-stream", data=io.BytesIO(open(p, "rb").read()), is_supported_mime_type=True)])
+        n = 0
+        try:
+            for _r in mail.iterate_supported_attachments():
+                n += 1
+            v = "ok"
+        except _enc_err():
+            v = "encrypted"
+        except Exception as e:  # noqa
+            v = "other:" + type(e).__name__
+        if v != "encrypted" or n != 0:
+            return fail("EmailContent.iterate_supported_attachments", {"attachment": os.path.relpath(p, REPO)}, "ExtractionFileEncryptedError, 0 results", f"{v}, {n}")
     # 7. EPUB
     from sharepoint2text.parsing.extractors.epub_extractor import read_epub
     ep = open(sorted(glob.glob(os.path.join(RES, "**/*.epub"), recursive=True))[0], "rb").read()
@@ -367,10 +457,9 @@ def sweep():
         if res[0] != want or (want == "encrypted" and res[1] != 0):
             return fail("read_epub", {"variant": label}, want, str(res))
     # 8. PDF: pypdf-encrypted copies of a plain fixture (empty / non-empty user password)
-    r = pdf_pairs(skip=("AES-128|",))        # AES-128 with the empty password: recorded finding F28 (replayed by id)
-    if r is not None:
-        return r
-    return None
+    #    (the stored copies of step 9 replaced the slower re-writing of a 50 KB fixture; pdf_pairs() is kept for the F28 replay)
+    # 9. stored RC4 / AES-128 / AES-256 copies of a tiny PDF, each read in a fresh process; the AES patch itself
+    return aes_patch_check() or embedded_pdfs()
 
 
 _PDF_WRITER = r"""
@@ -441,16 +530,253 @@ def pdf_pairs(only=None, skip=()):
     return None
 
 
+_PDF_READER = r"""
+import io, json, sys, logging
+logging.disable(logging.CRITICAL)
+sys.path.insert(0, sys.argv[1])
+import base64, zlib
+from sharepoint2text.parsing.extractors.pdf.pdf_extractor import read_pdf
+from sharepoint2text.parsing.exceptions import ExtractionFileEncryptedError
+data = zlib.decompress(base64.b64decode(sys.stdin.read()))
+n, text = 0, None
+try:
+    for r in read_pdf(io.BytesIO(data), 'a.pdf'):
+        n += 1
+        text = r.get_full_text()
+    v = 'ok'
+except ExtractionFileEncryptedError:
+    v = 'encrypted'
+except Exception as e:
+    v = 'other:' + type(e).__name__ + ': ' + str(e)[:100] + ' / cause: ' + repr(e.__cause__)[:120]
+print(json.dumps({'verdict': v, 'n': n, 'text': text}))
+"""
+
+
+def embedded_pdfs(only=None):
+    """The stored copies of one tiny PDF (replay/C08_pdfs.json: plain, and RC4-40/128, AES-128, AES-256 R5/R6 each with the
+    empty and with a non-empty user password; written once by pypdf).  Each is read by the real read_pdf in a FRESH process
+    (whether pypdf's AES hooks are patched is process state): empty password => the text of the plain original,
+    non-empty => ExtractionFileEncryptedError with 0 results."""
+    import json
+    import subprocess
+    import sys
+    docs = json.load(open(os.path.join(os.path.dirname(os.path.abspath(__file__)), "C08_pdfs.json")))
+
+    def read(key):
+        pr = subprocess.run([sys.executable, "-c", _PDF_READER, REPO], input=docs[key], capture_output=True, text=True, timeout=120)
+        try:
+            return json.loads(pr.stdout.strip().splitlines()[-1])
+        except Exception:  # noqa
+            return {"verdict": "other:reader crashed " + (pr.stderr or "")[-200:], "n": 0, "text": None}
+    base = read("plain")
+    if base["verdict"] != "ok" or "quarterly totals 1234" not in (base["text"] or ""):
+        return fail("read_pdf", {"stored_pdf": "plain"}, "extracts", str(base))
+    for key in sorted(k for k in docs if k != "plain"):
+        if only is not None and not any(key.startswith(o) for o in only):
+            continue
+        algo, pw = key.split("|")
+        r = read(key)
+        inp = {"stored_pdf": "replay/C08_pdfs.json[" + key + "]", "algorithm": algo, "user_password": "non-empty" if pw else "empty", "process": "fresh"}
+        if pw and (r["verdict"] != "encrypted" or r["n"] != 0):
+            return fail("read_pdf", inp, "ExtractionFileEncryptedError, 0 results", f"{r['verdict']}, {r['n']} result(s)")
+        if not pw and (r["verdict"] != "ok" or r["text"] != base["text"]):
+            return fail("read_pdf", inp, "same text as the unencrypted original", f"{r['verdict']}, same_text={r['text'] == base['text']}")
+    return None
+
+
+_PATCH_PROBE = r"""
+import json, sys
+sys.path.insert(0, sys.argv[1])
+import pypdf, pypdf._encryption, pypdf._crypt_providers, pypdf._crypt_providers._fallback as fb
+import sharepoint2text.parsing.extractors.pdf._pypdf_aes_fallback as A
+names = ('aes_ecb_encrypt', 'aes_ecb_decrypt', 'aes_cbc_encrypt', 'aes_cbc_decrypt')
+importers = sorted(m for m, mod in list(sys.modules.items()) if m.startswith('pypdf') and mod is not None
+                   and any(hasattr(mod, n) for n in names + ('CryptAES',)))
+try:
+    fb.aes_cbc_decrypt(b'k' * 16, b'i' * 16, b'd' * 16)
+    stub = 'no exception'
+except Exception as e:
+    stub = type(e).__name__ + ': ' + str(e)
+ret = A.patch_pypdf_fallback_aes()
+stale = []
+for m in importers:
+    mod = sys.modules[m]
+    for n in names:
+        if hasattr(mod, n) and getattr(mod, n) is not getattr(A, n):
+            stale.append(m + '.' + n)
+    c = getattr(mod, 'CryptAES', None)
+    if c is not None:
+        try:
+            if c(b'k' * 16).decrypt(c(b'k' * 16).encrypt(b'probe')) != b'probe':
+                stale.append(m + '.CryptAES (round trip)')
+        except Exception as e:
+            stale.append(m + '.CryptAES (' + type(e).__name__ + ')')
+print(json.dumps({'provider': pypdf._crypt_providers.crypt_provider[0], 'returned': ret, 'importers': importers, 'stale': stale, 'stub': stub}))
+"""
+
+
+def patch_probe():
+    """Fresh process: call the real patch_pypdf_fallback_aes() and look at every pypdf module that holds its own binding of
+    the AES names.  -> dict(provider, returned, importers, stale)."""
+    import json
+    import subprocess
+    import sys
+    pr = subprocess.run([sys.executable, "-c", _PATCH_PROBE, REPO], capture_output=True, text=True, timeout=120)
+    try:
+        return json.loads(pr.stdout.strip().splitlines()[-1])
+    except Exception:  # noqa
+        return {"error": (pr.stderr or pr.stdout)[-300:]}
+
+
+ASSUMED_IMPORTERS = ["pypdf._crypt_providers", "pypdf._crypt_providers._fallback", "pypdf._encryption"]
+
+
+def aes_patch_check():
+    pb = patch_probe()
+    if pb.get("error"):
+        return None
+    if pb["provider"] == "local_crypt_fallback" and (pb["returned"] is not True or pb["stale"]):
+        r = embedded_pdfs(only=("AES-256",)) or embedded_pdfs(only=("AES-128",))
+        rec = fail("patch_pypdf_fallback_aes", {"process": "fresh", "provider": pb["provider"]},
+                   "returns True and every pypdf module that bound the AES names resolves them to the built-in AES",
+                   f"returned {pb['returned']}; still pypdf's raising stubs: {pb['stale']}")
+        if r is not None:
+            rec["inputs"].update(r["inputs"])
+            rec["observed"] += " -> read_pdf: " + r["observed"]
+        return rec
+    return None
+
+
+def validate_views():
+    """Validation (not proof) of the ASSUMED library views the contracts rest on, against the installed libraries.
+    -> [{"fact": id, "ok": bool, "detail": str}]"""
+    import struct as _st
+    import xml.etree.ElementTree as XET
+    out = []
+
+    def fact(fid, fn):
+        try:
+            ok, detail = fn()
+        except Exception as e:  # noqa
+            ok, detail = False, "validator crashed: " + repr(e)[:200]
+        out.append({"fact": fid, "ok": bool(ok), "detail": str(detail)[:300]})
+
+    def v_pypdf():
+        pb = patch_probe()
+        if pb.get("error"):
+            return False, pb["error"]
+        return sorted(pb["importers"]) == sorted(ASSUMED_IMPORTERS), f"modules binding the AES names: {pb['importers']}"
+    fact("pypdf-modules-binding-the-aes-names", v_pypdf)
+
+    def v_stub():
+        pb = patch_probe()
+        if pb.get("error"):
+            return False, pb["error"]
+        if pb["provider"] != "local_crypt_fallback":
+            return True, "a real crypto provider is installed: the fallback path is not used"
+        return pb["stub"].startswith("DependencyError") and "AES algorithm" in pb["stub"], "unpatched fallback primitive raises " + pb["stub"]
+    fact("pypdf-fallback-stub-raises-DependencyError-mentioning-AES-algorithm", v_stub)
+
+    def v_zip():
+        z = zipfile.ZipFile(io.BytesIO(zip_bytes([("a.txt", b"x", 1, None), ("b.txt", b"y", 0, 9), ("d/", b"", 0, None), ("c.txt", b"z", 0, None)])))
+        infos = z.infolist()
+        types = []
+        for nm in ("a.txt", "b.txt", "missing"):
+            try:
+                z.read(nm)
+                types.append(None)
+            except Exception as e:  # noqa
+                types.append(type(e))
+        ok = (types == [RuntimeError, NotImplementedError, KeyError] and issubclass(NotImplementedError, RuntimeError)
+              and [i.flag_bits & 1 for i in infos] == [1, 0, 0, 0] and [i.is_dir() for i in infos] == [False, False, True, False] and z.read("c.txt") == b"z")
+        return ok, f"read(encrypted/unsupported/missing) raised {[t.__name__ if t else None for t in types]}"
+    fact("zipfile-flag-bits-is_dir-and-read-exceptions", v_zip)
+
+    def v_ole():
+        import olefile
+        n = 0
+        for p in sorted(glob.glob(os.path.join(RES, "**/*.xls"), recursive=True) + glob.glob(os.path.join(RES, "**/*.doc"), recursive=True))[:6]:
+            data = open(p, "rb").read()
+            if not olefile.isOleFile(io.BytesIO(data)):
+                if data[:8] == b"\xd0\xcf\x11\xe0\xa1\xb1\x1a\xe1":
+                    return False, f"{p}: OLE signature but isOleFile is False"
+                continue
+            with olefile.OleFileIO(io.BytesIO(data)) as ole:
+                names = {"/".join(e) for e in ole.listdir(streams=True, storages=True)}
+                for nm in ("Workbook", "Book", "WordDocument", "EncryptionInfo", "EncryptedPackage", "1Table", "NoSuchStream"):
+                    if ole.exists(nm) != (nm.lower() in {x.lower() for x in names}):
+                        return False, f"{p}: exists({nm}) disagrees with listdir"
+                    if ole.exists(nm) and ole.get_type(nm) == olefile.STGTY_STREAM and len(ole.openstream(nm).read()) != ole.get_size(nm):
+                        return False, f"{p}: read() is not the whole stream {nm}"
+            n += 1
+        return n >= 2 and not olefile.isOleFile(io.BytesIO(b"PK\x03\x04" + b"\0" * 600)), f"{n} OLE fixtures"
+    fact("olefile-isOleFile-exists-openstream-read", v_ole)
+
+    def v_struct():
+        rnd = random.Random(1)
+        for _ in range(300):
+            b = bytes(rnd.getrandbits(8) for _ in range(rnd.randint(0, 12)))
+            o = rnd.randint(0, 12)
+            for fmt, size in (("<H", 2), ("<I", 4)):
+                want = sum(b[o + k] << (8 * k) for k in range(size)) if o + size <= len(b) else None
+                try:
+                    got = _st.Struct(fmt).unpack_from(b, o)[0]
+                except _st.error:
+                    got = None
+                if got != want:
+                    return False, f"Struct({fmt}).unpack_from({b!r}, {o}) = {got}, model {want}"
+            for n in (0, 1, 2):
+                if len(b) >= n and int.from_bytes(b[:n], "little") != sum(b[k] << (8 * k) for k in range(n)):
+                    return False, "int.from_bytes"
+        return True, "300 random buffers"
+    fact("struct-unpack_from-and-int-from_bytes-little-endian", v_struct)
+
+    def v_xml():
+        from defusedxml import ElementTree as DET
+        doc = b'<m:manifest xmlns:m="urn:x"><!-- m:encryption-data --><m:file-entry m:full-path="encryption-data"><m:encryption-data/></m:file-entry><plain/></m:manifest>'
+        root = DET.fromstring(doc)
+        locs = [e.tag.rsplit("}", 1)[-1] for e in root.iter()]
+        try:
+            DET.fromstring(doc[:40])
+            trunc = None
+        except Exception as e:  # noqa
+            trunc = e
+        ok = locs == ["manifest", "file-entry", "encryption-data", "plain"] and isinstance(trunc, (DET.ParseError, XET.ParseError))
+        enc = XET.fromstring(enc_xml(["http://www.idpf.org/2008/embedding", None]))
+        eds = enc.findall(".//{http://www.w3.org/2001/04/xmlenc#}EncryptedData")
+        meths = [e.find("{http://www.w3.org/2001/04/xmlenc#}EncryptionMethod") for e in eds]
+        ok = ok and len(eds) == 2 and meths[0] is not None and meths[0].get("Algorithm") == "http://www.idpf.org/2008/embedding" and meths[1] is None
+        return ok, f"iter() local names {locs}; truncated document -> {type(trunc).__name__}; findall/find/get as modelled"
+    fact("elementtree-iter-tags-ParseError-findall-find-get", v_xml)
+
+    def v_pdf():
+        from pypdf import PdfReader
+        p = glob.glob(os.path.join(RES, "**/password_protected*/*.pdf"), recursive=True)
+        if not p:
+            return False, "no protected PDF fixture"
+        r = PdfReader(io.BytesIO(open(p[0], "rb").read()))
+        res = r.decrypt("")
+        return bool(r.is_encrypted) and res == 0 and int(res) == 0, f"decrypt('') = {res!r} on the protected fixture"
+    fact("pypdf-is_encrypted-and-decrypt-result-0-for-a-rejected-password", v_pdf)
+    return out
+
+
 def find(req):
     import logging
     logging.disable(logging.CRITICAL)
+    if req.get("validate_views"):
+        return {"reproduced": False, "facts": validate_views()}
     if req.get("known_finding"):
         ok, inputs, obs = finding(req["known_finding"])
         return {"reproduced": bool(ok), "inputs": inputs, "observed": obs, "expected": EXPECT}
+    ob = req.get("obligation", "")
+    if "patch_pypdf_fallback_aes" in ob or "pdf_extractor" in ob:
+        r = aes_patch_check() or embedded_pdfs()
+        if r is not None:
+            return r
     r = sweep()
     if r is not None:
         return r
-    ob = req.get("obligation", "")
     for key, fid in OBLIGATION_TO_FINDING.items():
         if key in ob:
             ok, inputs, obs = finding(fid)
